@@ -335,7 +335,7 @@ struct Harness
         {
         case OP_INS: return "insert@gap" + std::to_string(o.a);
         case OP_REM: return "remove@rank" + std::to_string(o.a);
-        case OP_DUP: return "insert-duplicate@rank" + std::to_string(o.a);
+        case OP_DUP: return (o.b ? "insert-resident@rank" : "insert-duplicate@rank") + std::to_string(o.a);
         case OP_FIND: return "search-present@rank" + std::to_string(o.a);
         case OP_MISS: return "search-absent@gap" + std::to_string(o.a);
         case OP_ITER: return "iterate";
@@ -384,6 +384,33 @@ struct Harness
         out.leave();
         if (!ck.err.empty()) { out.viol(op, std::string(TNAME "|remove|") + ck.cls, ck.err); return; }
         out.succ(op, encode(L), "remove", "unlinked");
+    }
+    void do_resident(const std::string &key, xs::Sink &out)
+    {
+        Live L;
+        make(L, key);
+        int m = (int)L.order.size();
+        // the resident element itself offered again (insert-if-absent on an object that is already a member): it is returned and nothing changes
+        for (int r = 0; r < m; ++r)
+        {
+            xs::Op op{OP_DUP, r, 1, 0};
+            if (!out.enter(op)) { continue; }
+            tnode *self = &L.order[r]->node;
+            tnode *got = T(insert)(&L.root, self, cmp_elem);
+            Check ck;
+            if (got != self) { ck.fail("duplicate-return", "inserting a resident element again did not return that element"); }
+            else { check_tree(L, ck); }
+            out.leave();
+            if (ck.err.empty() && encode(L) != key) { ck.fail("duplicate-changed", "inserting a resident element again changed the tree"); }
+            if (!ck.err.empty())
+            {
+                out.viol(op, std::string(TNAME "|insert-resident|") + ck.cls, ck.err);
+                L = Live();
+                make(L, key);
+                continue;
+            }
+            out.succ(op, key, "insert-resident", "resident-returned");
+        }
     }
     void do_readonly(const std::string &key, xs::Sink &out)
     {
@@ -698,6 +725,7 @@ struct Harness
         if (m < N) { for (int g = 0; g <= m; ++g) { do_insert(key, g, out); } }
         for (int r = 0; r < m; ++r) { do_remove(key, r, out); }
         if (inv) { do_readonly(key, out); }
+        do_resident(key, out);
         if (iters) { do_iters(key, out); }
         if (tear) { do_tear(key, out); }
     }
